@@ -72,6 +72,8 @@ def check_C05(chk):
     execs, seen, plans = [], set(), []
     for cfg in (['prod', 'dbg', 'alt3', 'portable'] + (['alt', 'o2', 'shared'] if chk.thorough else [])):
         exe = build_driver(chk.wd, cfg)
+        if exe is None:
+            continue
         chk.cov['builds'].append(cfg)
         ls = []
         for gi, g in enumerate(groups):
